@@ -12,9 +12,18 @@ CLAIMED = {
                 "≤ 10 bytes, 10 for negatives; load/decode_varint invert it and report the consumed count whatever follows; size_varint = encoded length for every int; "
                 "< -2^63 rejected by both; decoder trichotomy on every byte string (value after 1..10 well-shaped bytes / EOFError / ValueError for > 10); "
                 "zig-zag bijection and ranges; int32/int64 sign recovery; fixed-width LE pack/unpack bijection; float/double/bool. "
-                "Byte identity with the reference encoder is the differential part.",
-        "note": TB + "struct.pack/unpack modelled as LE bit patterns; math.ceil(bit_length/7) modelled as (bit_length+6)/7; reference = google.protobuf 7.36.1.",
-        "technique": "Lean 4 proof (induction on byte lists / strong induction on the value) + exhaustive-and-random differential correspondence",
+                "Byte identity with the reference encoder is the differential part. "
+                "TIED TO THE SOURCE BY TRANSLATION (Props/C16Src): dump_varint, encode_varint, size_varint, load_varint (also with a pending first byte), decode_varint and the "
+                "zig-zag / sign-recovery / tag arithmetic of _preprocess_single, _len_preprocessed_single, _postprocess_single, _serialize_single, _len_single, load_fields are "
+                "re-translated from the Python AST of the working tree on every run (harness/extract_src.py -> BpProofs/Gen/SrcCodec.lean) and proved EQUAL to the model functions "
+                "for every argument and every sufficient loop fuel (BpProofs/SrcTie.lean), so src_varint_roundtrip, src_size_eq_encoded_length, src_reject_below are theorems "
+                "about the code as written today.",
+        "note": TB + "struct.pack/unpack modelled as LE bit patterns; math.ceil(bit_length/7) modelled as (bit_length+6)/7; reference = google.protobuf 7.36.1. "
+                "Source translation: trusted are the translator (extract_src.py, a syntax-directed map of a small Python subset) and the meaning of the Python primitives "
+                "fixed in BpProofs/PyPrelude.lean (unbounded int operators as Mathlib's Int.land / lor / xor and 2^k multiplication / floor division, bytes as lists, "
+                "BytesIO read / write / seek, to_bytes(1) / from_bytes little-endian, bit_length, math.ceil(a / 7)); an unsupported construct makes the translation fail, "
+                "which is reported as a broken proof obligation.",
+        "technique": "Lean 4 proof (induction on byte lists / strong induction on the value; source-to-Lean translation of the codec primitives with machine-checked equality to the model) + exhaustive-and-random differential correspondence",
         "design_ref": "DESIGN.md §7 C16",
     },
 }
